@@ -339,6 +339,12 @@ def _matches(pyval, ty):
         return not isinstance(pyval, (int, float)) and not any(c.__name__ in DSL_CLASSES for c in type(pyval).__mro__)
     if k == 'htuple':
         return isinstance(pyval, tuple)
+    if k in ('arr1', 'arr1i'):
+        return hasattr(pyval, 'ndim') and pyval.ndim == 1
+    if k == 'arr2':
+        return hasattr(pyval, 'ndim') and pyval.ndim == 2
+    if k == 'vec':
+        return hasattr(pyval, 'ndim') and pyval.ndim == 1
     return False
 
 
@@ -382,7 +388,8 @@ def run_contract(c, real_fn, argvals, global_types, extra_roots=()):
     roots = [argvals[n] for n, _ in c.params] + list(extra_roots)
     S0 = snapshot(ab, roots, global_types, 'pre')
     a = {n: value_of(ab, tys[n], argvals[n]) for n, _ in c.params}
-    BACKGROUND[:] = ab.background() + list(c.axioms())
+    facts = list(c.runtime_facts(argvals)) if getattr(c, 'runtime_facts', None) else list(c.defs(S0, a))
+    BACKGROUND[:] = ab.background() + list(c.axioms()) + facts
     pre_copy = c.runtime_pre(argvals) if getattr(c, 'runtime_pre', None) else None
     for lab, f in c.requires(S0, a):
         h = holds(f)
@@ -400,7 +407,7 @@ def run_contract(c, real_fn, argvals, global_types, extra_roots=()):
         rr.exc_text = str(e)[:200]
     roots2 = roots + ([out] if out is not None else [])
     S = snapshot(ab, roots2, global_types, 'post')
-    BACKGROUND[:] = ab.background() + list(c.axioms())
+    BACKGROUND[:] = ab.background() + list(c.axioms()) + facts
     engine = sx.Engine.__new__(sx.Engine)
     if rr.outcome != 'return':
         allowed = [when for exc, when in c.raises if sx.Engine.exc_matches(engine, rr.outcome, exc)]
